@@ -13,11 +13,13 @@
 
    FULL STATEMENT of the property's first clause (lexeme agreement):
        forall s, in_quantifier s = true -> lexemes_lang s = lexemes_syn s.
-   It is FALSE for today's code in exactly four ways, each witnessed below (C18_*_refuted) and reproduced
+   It is FALSE for today's code in exactly three ways, each witnessed below (C18_*_refuted) and reproduced
    on the real lexers (KNOWN-FINDING of checks/c18.py): (B) ':' as replacement of '#' in based literals,
-   (C) a non-integer abstract literal merged with a bit string, (A) the reserved words assume_guarantee /
-   restrict_guarantee before a tick, (D) CR LF between two ticks.  `known_difference s` is the boolean
-   that delimits these four.  The corrected statement
+   (A) the reserved words assume_guarantee / restrict_guarantee before a tick, (D) CR LF between two ticks.
+   `known_difference s` is the boolean that delimits these three.  A fourth way, (C) a non-integer abstract
+   literal merged with a bit string (finding F41), was repaired by commit f2c0e80: the model follows the
+   repaired merge_bit_string_literals, the code before it is SynLexer.merge_old
+   (C18_merge_any_literal_old_refuted).  The corrected statement
        forall s, in_quantifier s = true -> known_difference s = false -> lexemes_lang s = lexemes_syn s
    is PROVED FOR ALL INPUTS (C18_lexemes_agree), through the common step-wise characterisation: each lexer
    realises split_spec when clean (C18_lang_is_spec_eol over the reader model of vhdl_lang, C18_syn_is_spec_eol
@@ -51,24 +53,22 @@ Print Assumptions C18_bounded_example.
 
 (* ---------- step-wise characterisation: each lexer realises split_spec when clean ---------- *)
 (* vhdl_syntax half, ALL inputs: on an input that is clean for the model of vhdl_syntax's tokenizer, has no
-   grave accent and no CR, on which no non-integer abstract literal is merged into a bit string (difference C)
-   and which does not hold the two PSL reserved words (difference A), the merged token stream spells exactly
+   grave accent and no CR and which does not hold the two PSL reserved words (difference A), the merged token
+   stream spells exactly
    the lexemes of the reference splitter.  (Proved arm by arm: trivia = separators and comments; identifiers and
    reserved words; abstract literals; bit strings through merge_bit_string_literals; character literal versus
    tick; strings; extended identifiers; every delimiter.) *)
 Theorem C18_syn_is_spec : forall s,
-  clean_syn s = true -> no_directive s = true -> no_cr s = true ->
-  has_nonint_bitstring s = false -> has_psl_word s = false ->
+  clean_syn s = true -> no_directive s = true -> no_cr s = true -> has_psl_word s = false ->
   split_spec LangLexer.keywords_2008 s = lexemes_syn s.
 Proof. exact syn_is_spec. Qed.
 Check C18_syn_is_spec : forall s,
-  clean_syn s = true -> no_directive s = true -> no_cr s = true ->
-  has_nonint_bitstring s = false -> has_psl_word s = false ->
+  clean_syn s = true -> no_directive s = true -> no_cr s = true -> has_psl_word s = false ->
   split_spec LangLexer.keywords_2008 s = lexemes_syn s.
 Print Assumptions C18_syn_is_spec.
 (* the hypotheses hold of `x"A" 12sb"0"'a'('b')'c --x LF 16#F#e1?/=\a\"q""":=1.5` (14 lexemes) *)
 Example C18_syn_is_spec_example : clean_syn ex_syn = true /\ no_directive ex_syn = true /\ no_cr ex_syn = true
-  /\ has_nonint_bitstring ex_syn = false /\ has_psl_word ex_syn = false
+  /\ has_psl_word ex_syn = false
   /\ length (match lexemes_syn ex_syn with Some l => l | None => [] end) = 14%nat.
 Proof. exact ex_syn_ok. Qed.
 Print Assumptions C18_syn_is_spec_example.
@@ -76,13 +76,12 @@ Print Assumptions C18_syn_is_spec_example.
 (* the same for inputs that may hold CR (as separator, inside comments, strings, character literals): a line
    break inside a lexeme reads as LF *)
 Theorem C18_syn_is_spec_eol : forall s,
-  clean_syn s = true -> no_directive s = true ->
-  has_nonint_bitstring s = false -> has_psl_word s = false ->
+  clean_syn s = true -> no_directive s = true -> has_psl_word s = false ->
   option_map (map norm_eol) (split_spec LangLexer.keywords_2008 s) = lexemes_syn s.
 Proof. exact syn_is_spec_eol. Qed.
 Print Assumptions C18_syn_is_spec_eol.
 Example C18_syn_is_spec_eol_example : clean_syn ex_syn_eol = true /\ no_directive ex_syn_eol = true
-  /\ has_nonint_bitstring ex_syn_eol = false /\ has_psl_word ex_syn_eol = false
+  /\ has_psl_word ex_syn_eol = false
   /\ lexemes_syn ex_syn_eol = Some [[120]; [58; 61]; [34; 97; 10; 98; 34]; [40]; [39; 10; 39]; [41]].
 Proof. exact ex_syn_eol_ok. Qed.
 Print Assumptions C18_syn_is_spec_eol_example.
@@ -117,7 +116,7 @@ Theorem C18_split_spec_normalisation : forall kws s, has_crlf_char s = false ->
 Proof. exact split_spec_ne. Qed.
 Print Assumptions C18_split_spec_normalisation.
 
-(* LEXEME AGREEMENT — the property's first clause with the four differences of today's code excluded:
+(* LEXEME AGREEMENT — the property's first clause with the three differences of today's code excluded:
    for every Latin-1 source that is lexically clean for both front ends and holds neither a tool directive nor
    a `vhdl_ls` pragma, the two front ends split it into the same sequence of lexemes (bit strings merged). *)
 Theorem C18_lexemes_agree : forall s,
@@ -155,7 +154,7 @@ Theorem C18_clean_mismatch_old_refuted :
 Proof. exact clean_mismatch_old. Qed.
 Print Assumptions C18_clean_mismatch_old_refuted.
 
-(* ---------- the literal property is false on today's code: four witnesses ---------- *)
+(* ---------- the literal property is false on today's code: three witnesses ---------- *)
 Theorem C18_lexemes_agree_refuted :
   exists s, in_quantifier s = true /\ lexemes_lang s <> lexemes_syn s.
 Proof. exists w_colon. exact (proj1 mismatch_colon). Qed.
@@ -165,11 +164,14 @@ Theorem C18_colon_based_literal_refuted : mismatch w_colon
   /\ lexemes_lang w_colon = Some [[49; 54]; [58]; [70; 70]; [58]] /\ lexemes_syn w_colon = Some [w_colon].
 Proof. exact mismatch_colon. Qed.
 Print Assumptions C18_colon_based_literal_refuted.
-(* (C) `1.5x"0"` — vhdl_syntax merges the real literal into a bit string literal *)
-Theorem C18_nonint_bitstring_merge_refuted : mismatch w_merge
-  /\ lexemes_lang w_merge = Some [[49; 46; 53]; [120; 34; 48; 34]] /\ lexemes_syn w_merge = Some [w_merge].
-Proof. exact mismatch_merge. Qed.
-Print Assumptions C18_nonint_bitstring_merge_refuted.
+(* (C, F41) `1.5x"0"` — merge_bit_string_literals before commit f2c0e80 merged the real literal into a bit
+   string literal although the input is clean for both; the repaired merge agrees with vhdl_lang *)
+Theorem C18_merge_any_literal_old_refuted :
+  lang_result w_merge = Some (true, [[49; 46; 53]; [120; 34; 48; 34]])
+  /\ syn_result_merge_old w_merge = Some (true, [w_merge])
+  /\ syn_result w_merge = Some (true, [[49; 46; 53]; [120; 34; 48; 34]]).
+Proof. exact merge_any_literal_old. Qed.
+Print Assumptions C18_merge_any_literal_old_refuted.
 (* (A) `assume_guarantee'a'` — a reserved word only for vhdl_lang: character literal vs attribute tick *)
 Theorem C18_psl_reserved_word_refuted : mismatch w_psl
   /\ lexemes_lang w_psl = Some [ASSUME_G; [39; 97; 39]] /\ lexemes_syn w_psl = Some [ASSUME_G; [39]; [97]; [39]].
@@ -181,7 +183,7 @@ Theorem C18_crlf_character_refuted : mismatch w_crlf
 Proof. exact mismatch_crlf. Qed.
 Print Assumptions C18_crlf_character_refuted.
 (* each witness is inside `known_difference` *)
-Theorem C18_witnesses_are_known : known_difference w_colon = true /\ known_difference w_merge = true
+Theorem C18_witnesses_are_known : known_difference w_colon = true
   /\ known_difference w_psl = true /\ known_difference w_crlf = true.
 Proof. exact witnesses_known. Qed.
 Print Assumptions C18_witnesses_are_known.
